@@ -158,12 +158,12 @@ func ReaderFromDelta(base plumbing.EncodedObject, deltaRC io.Reader) (io.ReadClo
 			case isCopyFromSrc(cmd):
 				offset, err := decodeOffsetByteReader(cmd, deltaBuf)
 				if err != nil {
-					_ = dstWr.CloseWithError(err)
+					_ = dstWr.CloseWithError(eofAsInvalidDelta(err))
 					return
 				}
 				sz, err := decodeSizeByteReader(cmd, deltaBuf)
 				if err != nil {
-					_ = dstWr.CloseWithError(err)
+					_ = dstWr.CloseWithError(eofAsInvalidDelta(err))
 					return
 				}
 
@@ -203,8 +203,8 @@ func ReaderFromDelta(base plumbing.EncodedObject, deltaRC io.Reader) (io.ReadClo
 					basePos += uint(n)
 					discard -= uint(n)
 				}
-				if _, err := ioutil.CopyBufferPool(dstWr, io.LimitReader(baseBuf, int64(sz))); err != nil {
-					_ = dstWr.CloseWithError(err)
+				if n, err := ioutil.CopyBufferPool(dstWr, io.LimitReader(baseBuf, int64(sz))); err != nil || n != int64(sz) {
+					_ = dstWr.CloseWithError(shortCopy(err))
 					return
 				}
 				remainingTargetSz -= sz
@@ -216,8 +216,8 @@ func ReaderFromDelta(base plumbing.EncodedObject, deltaRC io.Reader) (io.ReadClo
 					_ = dstWr.CloseWithError(ErrInvalidDelta)
 					return
 				}
-				if _, err := ioutil.CopyBufferPool(dstWr, io.LimitReader(deltaBuf, int64(sz))); err != nil {
-					_ = dstWr.CloseWithError(err)
+				if n, err := ioutil.CopyBufferPool(dstWr, io.LimitReader(deltaBuf, int64(sz))); err != nil || n != int64(sz) {
+					_ = dstWr.CloseWithError(shortCopy(err))
 					return
 				}
 
@@ -407,8 +407,8 @@ func patchDeltaWriter(dst io.Writer, base io.ReaderAt, deltaBuf *bufio.Reader,
 				return 0, plumbing.ZeroHash, err
 			}
 			baselr.N = int64(sz)
-			if _, err := io.CopyBuffer(mw, baselr, buf); err != nil {
-				return 0, plumbing.ZeroHash, err
+			if n, err := io.CopyBuffer(mw, baselr, buf); err != nil || n != int64(sz) {
+				return 0, plumbing.ZeroHash, shortCopy(err)
 			}
 			remainingTargetSz -= sz
 		case isCopyFromDelta(cmd):
@@ -417,8 +417,8 @@ func patchDeltaWriter(dst io.Writer, base io.ReaderAt, deltaBuf *bufio.Reader,
 				return 0, plumbing.ZeroHash, ErrInvalidDelta
 			}
 			deltalr.N = int64(sz)
-			if _, err := io.CopyBuffer(mw, deltalr, buf); err != nil {
-				return 0, plumbing.ZeroHash, err
+			if n, err := io.CopyBuffer(mw, deltalr, buf); err != nil || n != int64(sz) {
+				return 0, plumbing.ZeroHash, shortCopy(err)
 			}
 
 			remainingTargetSz -= sz
@@ -436,6 +436,24 @@ func patchDeltaWriter(dst io.Writer, base io.ReaderAt, deltaBuf *bufio.Reader,
 	}
 
 	return targetSz, hasher.Sum(), nil
+}
+
+// eofAsInvalidDelta maps an end of input in the middle of a command to
+// ErrInvalidDelta so that it is never mistaken for a clean end of stream.
+func eofAsInvalidDelta(err error) error {
+	if errors.Is(err, io.EOF) || errors.Is(err, io.ErrUnexpectedEOF) {
+		return ErrInvalidDelta
+	}
+	return err
+}
+
+// shortCopy is the error for a copy that moved fewer bytes than the command
+// declared (a nil error from io.Copy on a LimitReader means the source ended).
+func shortCopy(err error) error {
+	if err == nil {
+		return ErrInvalidDelta
+	}
+	return eofAsInvalidDelta(err)
 }
 
 func isCopyFromSrc(cmd byte) bool {
